@@ -1132,6 +1132,13 @@ func (r *Raft) sendAppendEntries(id string, address string, numResponses *int, r
 		return
 	}
 
+	// Ensure this response is not stale. It is possible that this node lost leadership and
+	// won it again in a later term: what the follower acknowledged back then says nothing
+	// about the log it has now.
+	if r.currentTerm != request.Term {
+		return
+	}
+
 	// If the majority of cluster acknowledges the request, this node is a legitimate leader.
 	// Try to apply pending read-only operations.
 	// Non-voting members do not take part in elections, their responses say nothing about leadership.
